@@ -579,6 +579,8 @@ def run(ctx):
     ctx.extra["api_calls_under_asan"] = len(allreqs)
     for q in oreqs:
         ctx.count("oracle-outcome:" + ares[q["id"]]["outcome"].split(":")[0])
+        if ares[q["id"]]["outcome"] == "timeout":
+            ctx.count(f"oracle-timeout:{q['fn']}:{q.get('cls', '-')}")
 
     impl = [observed_verdict(ares[q["id"]]) for q in areqs]
     ctx.correspond("verdict (safe|raise|oob) of public calls on the ASan build == Lean wrapper model",
